@@ -1,6 +1,7 @@
 package main
 
 import (
+	"go/token"
 	"fmt"
 	"sort"
 	"strings"
@@ -18,8 +19,9 @@ func init() {
 			"(R1 dependency) the value read from the decode parameter BitsPerComponent is followed (taint through calls, results, φ, arithmetic) and has to reach the call that performs TIFF horizontal differencing (the PredictorTIFF branch of processRow): differencing adds SAMPLES, so for 1-, 2-, 4- and 16-bit components — all allowed by the standard — a routine that never sees the sample width cannot be right. " +
 			"(R2 siblings) every filter type whose decoder reads the Predictor parameter reaches the row post-processing (processRow); reading it only to reject it turns every predictor stream of that filter — allowed by the standard for LZWDecode as for FlateDecode — into an error. " +
 			"(R3 TABLE) processRow's switch over the PNG filter-type byte has exactly the cases 0..4 and an error default. " +
+			"(R4 normal form) the three results of predictorRowParams are, as polynomials over (colors, bpc, columns) with floor divisions as atoms and the module's checked-arithmetic helpers read as their operation, bytesPerPixel = floor((bpc*colors+7)/8), rowSize = floor((bpc*colors*columns+7)/8), rowLen = rowSize or rowSize+1 (nothing is evaluated; equal normal forms compute equal functions). (R5 dominance) no row leaves processRow successfully unless the p == PredictorTIFF test or a branch on the row's first byte dominates the return: the /Predictor value does not name the filter of a PNG row. " +
 			"Both R1 and R2 are violated on the pinned tree; the repairs are feature work (sub-byte and 16-bit differencing, predictor support for LZW), so they are recorded as known findings with demonstrations. NOT decided: the arithmetic of the PNG filters and of differencing itself (value-level).",
-		Rules:       []string{"C17.R1 dependency: TIFF differencing receives the sample width", "C17.R2 siblings: a decoder that reads Predictor applies it", "C17.R3 TABLE: PNG filter types 0..4"},
+		Rules:       []string{"C17.R1 dependency: TIFF differencing receives the sample width", "C17.R2 siblings: a decoder that reads Predictor applies it", "C17.R3 TABLE: PNG filter types 0..4", "C17.R4 normal form: row size, row length and bytes per pixel are the formulas of RFC 2083 / TIFF 6.0 as polynomials with floor divisions", "C17.R5 dominance: every successful return of processRow is behind the TIFF test or behind the dispatch on the row's filter byte"},
 		Assumptions: []string{"decode parameters are read through constant keys of the parms map"},
 		Level:       "other",
 		Technique:   "interprocedural taint from a parameter lookup to a call site; sibling reachability over the pkg/filter call graph; switch-case table",
@@ -120,6 +122,10 @@ func runC17(c *Ctx) {
 	r.MinInst["C17.R1"] = 1
 	r.MinInst["C17.R2"] = 2
 	r.MinInst["C17.R3"] = 1
+	r.MinInst["C17.R4"] = 3
+	r.MinInst["C17.R5"] = 2
+	checkRowGeometry(c)
+	checkRowFilterDispatch(c)
 	// ---- R1
 	var seeds []ssa.Value
 	for _, fn := range p.Funcs {
@@ -277,3 +283,160 @@ func runC17(c *Ctx) {
 		}
 	}
 }
+
+// ---------------- C17.R4 / R5 (round 4 seeds C17-A, C17-B) ----------------
+
+// R4: the row geometry. RFC 2083 §6: bpp = ⌈Colors·BitsPerComponent / 8⌉ bytes (at least 1 whenever the product
+// is positive) and a row has ⌈Colors·BitsPerComponent·Columns / 8⌉ bytes, plus one filter byte for PNG. The
+// three results of predictorRowParams on its successful return are normalised to polynomials over the
+// parameters with floor divisions as atoms (poly.go) and compared with those formulas' normal forms; a respelling
+// (operand order, temporaries, >>3, safemath or plain operators) has the same normal form, colors·⌈bpc/8⌉ has not.
+func checkRowGeometry(c *Ctx) {
+	p, r := c.P, c.R
+	const fid = "pkg/filter.predictorRowParams"
+	fn := p.Func(fid)
+	if fn == nil || len(fn.Params) != 4 {
+		r.Bad("C17.R4", fid, "anchor", "", "UNRESOLVED-ANCHOR: predictorRowParams(predictor, colors, bpc, columns) not found")
+		return
+	}
+	colors, bpc, columns := fn.Params[1].Name(), fn.Params[2].Name(), fn.Params[3].Name()
+	bits := polyAtom(colors).mul(polyAtom(bpc))
+	wantBpp := polyAtom(fmt.Sprintf("floor((%s)/8)", bits.add(polyConst(7), 1)))
+	wantRow := polyAtom(fmt.Sprintf("floor((%s)/8)", bits.mul(polyAtom(columns)).add(polyConst(7), 1)))
+	n := 0
+	for _, ret := range returnsOf(fn) {
+		if k, ok := returnErrKind(ret); !ok || k == errNonNil || len(ret.Results) != 4 {
+			continue
+		}
+		n++
+		pos := posOrFn(p, ret, fn)
+		check := func(name string, v ssa.Value, want ...poly) {
+			var alts []ssa.Value
+			if ph, ok := v.(*ssa.Phi); ok && len(want) > 1 {
+				alts = ph.Edges
+			} else {
+				alts = []ssa.Value{v}
+			}
+			var got []string
+			okAll := true
+			seen := map[string]bool{}
+			for _, a := range alts {
+				pa, ok := polyOf(a, 0)
+				if !ok {
+					r.Bad("C17.R4", fid, name, pos, "UNDECIDED: "+name+" is not a polynomial / floor-division expression of the parameters ("+exprName(a)+")")
+					return
+				}
+				got = append(got, pa.String())
+				match := false
+				for _, w := range want {
+					if w.String() == pa.String() {
+						match = true
+						seen[w.String()] = true
+					}
+				}
+				if !match {
+					okAll = false
+				}
+			}
+			if okAll && len(seen) == len(want) {
+				r.OK("C17.R4", fid, name, pos, name+" = "+strings.Join(got, " | "), true)
+			} else {
+				var ws []string
+				for _, w := range want {
+					ws = append(ws, w.String())
+				}
+				r.Bad("C17.R4", fid, name, pos, name+" is computed as "+strings.Join(got, " | ")+", RFC 2083 / TIFF 6.0 give "+strings.Join(ws, " | ")+": for sample widths below 8 bits with several colours (or 16-bit samples) the Sub/Average/Paeth neighbour is taken from the wrong distance, or rows are cut at the wrong length")
+			}
+		}
+		check("rowSize", ret.Results[0], wantRow)
+		check("rowLen", ret.Results[1], wantRow, wantRow.add(polyConst(1), 1))
+		check("bytesPerPixel", ret.Results[2], wantBpp)
+	}
+	if n == 0 {
+		r.Bad("C17.R4", fid, "row geometry", p.Pos(fn.Pos()), "UNDECIDED: no successful return with four results")
+	}
+}
+
+// R5: for the PNG predictors (10–15) the filter of a row is the row's first byte, whatever the /Predictor value
+// says (ISO 32000 7.4.4.4: "the predictor value only indicates that PNG is in use; each row states its filter").
+// In processRow every return that is not an error is therefore either behind the test p == PredictorTIFF or behind
+// the dispatch on the row's first byte (dominated by a branch whose condition derives from cr[0]).
+func checkRowFilterDispatch(c *Ctx) {
+	p, r := c.P, c.R
+	const fid = "pkg/filter.processRow"
+	fn := p.Func(fid)
+	if fn == nil || len(fn.Params) < 3 {
+		r.Bad("C17.R5", fid, "anchor", "", "UNRESOLVED-ANCHOR")
+		return
+	}
+	cr, pp := fn.Params[1], fn.Params[2]
+	// values derived from cr[0]
+	tag := map[ssa.Value]bool{}
+	eachInstr(fn, func(_ *ssa.BasicBlock, _ int, i ssa.Instruction) {
+		ia, ok := i.(*ssa.IndexAddr)
+		if !ok || ia.X != ssa.Value(cr) {
+			return
+		}
+		if k, ok := c31ConstInt(ia.Index); !ok || k != 0 {
+			return
+		}
+		for _, rf := range *ia.Referrers() {
+			if ld, ok := rf.(*ssa.UnOp); ok && ld.Op == token.MUL {
+				for v := range taintFrom(c, []ssa.Value{ld}) {
+					tag[v] = true
+				}
+			}
+		}
+	})
+	if len(tag) == 0 {
+		r.Bad("C17.R5", fid, "row filter byte", p.Pos(fn.Pos()), "UNDECIDED: processRow does not read the first byte of the current row")
+		return
+	}
+	// blocks reachable from the entry without passing a branch on the filter byte and without taking the TIFF edge
+	free := map[*ssa.BasicBlock]bool{fn.Blocks[0]: true}
+	work := []*ssa.BasicBlock{fn.Blocks[0]}
+	tiffEdges := 0
+	for len(work) > 0 {
+		x := work[len(work)-1]
+		work = work[:len(work)-1]
+		succs := x.Succs
+		if len(x.Instrs) > 0 {
+			if ifi, ok := x.Instrs[len(x.Instrs)-1].(*ssa.If); ok {
+				if bo, ok := ifi.Cond.(*ssa.BinOp); ok {
+					if tag[bo.X] || tag[bo.Y] {
+						continue // the filter byte decides from here on
+					}
+					if bo.Op == token.EQL && ((bo.X == ssa.Value(pp) && isIntConst(bo.Y, 2)) || (bo.Y == ssa.Value(pp) && isIntConst(bo.X, 2))) {
+						succs = x.Succs[1:] // the true edge is the TIFF branch
+						tiffEdges++
+					}
+				}
+			}
+		}
+		for _, sx := range succs {
+			if !free[sx] {
+				free[sx] = true
+				work = append(work, sx)
+			}
+		}
+	}
+	n := 0
+	for _, ret := range returnsOf(fn) {
+		if k, ok := returnErrKind(ret); ok && k == errNonNil {
+			continue
+		}
+		n++
+		construct := fmt.Sprintf("return#%d", n)
+		pos := posOrFn(p, ret, fn)
+		if free[ret.Block()] {
+			r.Bad("C17.R5", fid, construct, pos, "a row can be returned without the row's filter byte having been consulted and not on the TIFF branch: with PNG predictors every row names its own filter (a /Predictor 10 stream may contain Sub, Up, Average or Paeth rows, and an invalid filter byte is an error)")
+		} else {
+			r.OK("C17.R5", fid, construct, pos, "every path to this return takes the p == PredictorTIFF edge or passes a branch on the row's filter byte", true)
+		}
+	}
+	if n == 0 {
+		r.Bad("C17.R5", fid, "returns", p.Pos(fn.Pos()), "UNDECIDED: no successful return")
+	}
+}
+
+func isIntConst(v ssa.Value, k int64) bool { n, ok := c31ConstInt(v); return ok && n == k }
